@@ -91,10 +91,17 @@ fn log_ret(r: &str, v: i64, same: bool) {
         return;
     }
     let n = if t < st.th.len() { st.th[t].call_ops } else { 0 };
+    let mut solo = None;
+    let mut api = String::new();
     if t < st.th.len() {
+        api = st.th[t].in_call.as_ref().and_then(|c| c["api"].as_str()).unwrap_or("").to_string();
         st.th[t].in_call = None;
+        solo = st.th[t].solo_mark.take();
     }
     st.api.push(json!({"e":"ret","t":t,"r":r,"v":v,"same":same,"nops":n}));
+    if let Some(bound) = solo {
+        st.api.push(json!({"e":"solo","t":t,"api":api,"nops":n,"bound":bound,"done":true}));
+    }
 }
 
 fn set_retrying(on: bool) {
